@@ -554,8 +554,49 @@ def r9(ctx, R):
                                     if p2 in ps2 and reads_back(t2, p2, depth + 1, seen):
                                         return True
                     return False
+                def scope_relative_writes(q, p, depth=0, seen=None):
+                    """is some value stored into the shared object computed relative to the scope being
+                    checked (a call that takes the receiver / its parent)?  A memo of scope-independent
+                    look-ups (by name in the global table) shared across scopes changes nothing."""
+                    seen = seen or set()
+                    if (q, p) in seen or depth > 3:
+                        return False
+                    seen.add((q, p))
+                    h = ctx.m.funcs[q]
+                    me = h.params[0] if h.cls and h.params else None
+                    for n in ctx.m.walk_own(h.node):
+                        vals = []
+                        if isinstance(n, ast.Assign) and isinstance(n.targets[0], ast.Subscript) and isinstance(n.targets[0].value, ast.Name) and n.targets[0].value.id == p:
+                            vals = [n.value]
+                        elif isinstance(n, ast.Call) and isinstance(n.func, ast.Attribute) and n.func.attr in ("setdefault", "add", "append", "update") and isinstance(n.func.value, ast.Name) and n.func.value.id == p:
+                            vals = list(n.args)
+                        for v in vals:
+                            attrs_calls = [x for x in ast.walk(v)]
+                            names = {x.id for x in attrs_calls if isinstance(x, ast.Name)}
+                            # follow locals one level
+                            exprs = [v] + [dv for nm in names for _, dv in defs_of(ctx, h, nm) if dv is not None]
+                            for e_ in exprs:
+                                for c_ in ast.walk(e_):
+                                    if isinstance(c_, ast.Call) and any(isinstance(a_, ast.Name) and a_.id == me or (isinstance(a_, ast.Attribute) and isinstance(a_.value, ast.Name) and a_.value.id == me) for a_ in c_.args):
+                                        return True
+                                    if isinstance(c_, ast.Call) and isinstance(c_.func, ast.Attribute) and isinstance(c_.func.value, ast.Name) and c_.func.value.id == me and not c_.func.attr.startswith("get_"):
+                                        return True
+                        if isinstance(n, ast.Call):
+                            passed = [(j, None) for j, x in enumerate(n.args) if isinstance(x, ast.Name) and x.id == p] + [(None, kw.arg) for kw in n.keywords if isinstance(kw.value, ast.Name) and kw.value.id == p and kw.arg]
+                            for j, kwn in passed:
+                                for t2 in ctx.r.resolve_call(h, n)[1]:
+                                    h2 = ctx.m.funcs[t2]
+                                    ps2 = h2.params[1:] if h2.cls else h2.params
+                                    p2 = kwn if kwn is not None else (ps2[j] if j < len(ps2) else None)
+                                    if p2 in ps2 and scope_relative_writes(t2, p2, depth + 1, seen):
+                                        return True
+                    return False
+
                 if reads_back(t, pname):
-                    bad = (a.id, g, pname)
+                    if scope_relative_writes(t, pname):
+                        bad = (a.id, g, pname)
+                    else:
+                        R.undecided("C07.R9", agg.short, key(agg, st) + f" :: {a.id}", loc(agg, c), f"`{a.id}` is shared by all scopes and both written and read below {g.short}, but no stored value is computed relative to the scope being checked (a memo of scope-independent look-ups would be harmless); not decided")
         k = key(agg, st)
         if bad:
             R.violation("C07.R9", agg.short, k, loc(agg, c), f"`{bad[0]}` is created once for the whole file and {bad[1].short} (parameter `{bad[2]}`) both fills and consults it: what one scope resolved is reused in the next - a type accessible in the first scope hides the `not found` error of a later scope that cannot see it")
